@@ -316,6 +316,21 @@ func c08Variant(p *c08Packet, v string) []byte {
 	return p.raw
 }
 
+// c08Remembered: is the random of the copy that was accepted (raw or with bit 255 cleared) still in the cache?
+func c08Remembered(sta *State, p *c08Packet, variant string) bool {
+	raw := p.random
+	if variant == "bit255" {
+		raw[31] ^= 0x80
+	}
+	canon := raw
+	canon[31] &= 0x7f
+	sta.usedRandomM.RLock()
+	defer sta.usedRandomM.RUnlock()
+	_, a := sta.UsedRandom[raw]
+	_, b := sta.UsedRandom[canon]
+	return a || b
+}
+
 func c08Why(err error) string {
 	switch {
 	case err == nil:
@@ -365,6 +380,8 @@ type c08Outcome struct {
 	NcDiff   int      `json:"nc_diff"`
 	WhyDiff  int      `json:"why_diff"`
 	Accepts  int      `json:"accepts"`
+	Cleans   int      `json:"cleans"`
+	Evicting int      `json:"evicting"` // clean-ups after which the cache holds fewer entries
 	Replays  int      `json:"replays"` // presentations of a block that had already been accepted, timestamp still in window
 }
 
@@ -430,6 +447,10 @@ func c08RunHistory(t *testing.T, h *c08History, c c08Conc, transport string) (ou
 					cleansSinceAccept[b]++
 				}
 				n := entries()
+				out.Cleans++
+				if n < before {
+					out.Evicting++
+				}
 				lastEntries = n
 				if c.R == h.R && !deviant && n != st.Nc {
 					out.NcDiff++
@@ -437,6 +458,7 @@ func c08RunHistory(t *testing.T, h *c08History, c c08Conc, transport string) (ou
 				out.Table = append(out.Table, fmt.Sprintf("step %d t=%v Clean: entries %d -> %d (model %d)", i, at, before, n, st.Nc))
 			case "Present":
 				p := packets[st.B]
+				remembered := accepted[st.B] > 0 && c08Remembered(sta, p, firstVariant[st.B]) // names the class of a violation, never decides
 				_, _, err := AuthFirstPacket(c08Variant(p, st.V), c08Transport(transport), sta)
 				why := c08Why(err)
 				now := time.Now()
@@ -470,12 +492,12 @@ func c08RunHistory(t *testing.T, h *c08History, c c08Conc, transport string) (ou
 					} else if inWin && out.Key == "" {
 						// THE PROPERTY: the same sealed block authenticated a second time inside its window
 						switch {
-						case cleansSinceAccept[st.B] > 0:
+						case cleansSinceAccept[st.B] > 0 && !remembered:
 							out.Key = "replay-after-cleanup"
 							out.What = fmt.Sprintf("an accepted %s first packet (presented as %s, then as %s) authenticated again after a clean-up of the replay cache, %v after the client stamp (window %v)", transport, firstVariant[st.B], st.V, now.Sub(time.Unix(p.ts, 0)), tol)
 						case st.V != firstVariant[st.B]:
 							out.Key = "replay-altered-bit255"
-							out.What = fmt.Sprintf("a copy of an accepted %s first packet that differs in bit 255 of the random only (same sealed block) authenticated again %v after the client stamp, no clean-up in between", transport, now.Sub(time.Unix(p.ts, 0)))
+							out.What = fmt.Sprintf("a copy of an accepted %s first packet that differs in bit 255 of the random only (same sealed block) authenticated again %v after the client stamp while the accepted copy was still in the replay cache", transport, now.Sub(time.Unix(p.ts, 0)))
 						default:
 							out.Key = "replay-accepted"
 							out.What = fmt.Sprintf("an accepted %s first packet authenticated again %v after the client stamp", transport, now.Sub(time.Unix(p.ts, 0)))
@@ -584,6 +606,8 @@ func TestVerifC08Replay(t *testing.T) {
 			res.Count(c08Sig(&h), c08Nontrivial(&h))
 			res.Stat("presentations", int64(c08CountPresent(&h)))
 			res.Stat("replay_attempts_in_window", int64(o.Replays))
+			res.Stat("clean_steps", int64(o.Cleans))
+			res.Stat("clean_steps_evicting", int64(o.Evicting))
 			res.Stat("mismatch", int64(o.Mismatch))
 			res.Stat("nc_diff", int64(o.NcDiff))
 			res.Stat("why_diff", int64(o.WhyDiff))
